@@ -3,8 +3,11 @@
 package tls
 
 import (
+	"crypto/mlkem"
 	"errors"
 	"sync"
+
+	"golang.org/x/crypto/sha3"
 )
 
 // Verification hooks, compiled only with the build tag "verif".  A VerifPlan is
@@ -225,4 +228,47 @@ func VerifWriteRecord(c *Conn, typ uint8, data []byte) error {
 	defer c.out.Unlock()
 	_, err := c.writeRecordLocked(recordType(typ), data)
 	return err
+}
+
+// verifSplitShare / verifHybridEncap give the hooked server the server side of
+// X25519Kyber768Draft00 (which uTLS clients offer but no in-repo server implements),
+// when a plan forces that group: share = X25519 public key || Kyber768 encapsulation
+// key; answer = X25519 public key || ciphertext; secret = X25519 secret || KDF, with the
+// Kyber round-3 KDF SHAKE-256(K || SHA3-256(ciphertext)) computed here independently of
+// the client's code.
+func (c *Conn) verifSplitShare(sel, g CurveID, data []byte) (CurveID, []byte) {
+	p := c.verif.plan
+	if p == nil || p.ForceGroup != X25519Kyber768Draft00 || sel != X25519Kyber768Draft00 {
+		return g, data
+	}
+	if len(data) != x25519PublicKeySize+mlkem.EncapsulationKeySize768 {
+		return g, data // left to the stock code, which rejects the group
+	}
+	return X25519, data[:x25519PublicKeySize]
+}
+
+func (c *Conn) verifHybridEncap(hs *serverHandshakeStateTLS13, sel CurveID, ks *keyShare) error {
+	p := c.verif.plan
+	if p == nil || p.ForceGroup != X25519Kyber768Draft00 || sel != X25519Kyber768Draft00 {
+		return nil
+	}
+	if len(ks.data) != x25519PublicKeySize+mlkem.EncapsulationKeySize768 {
+		return errors.New("verif: invalid X25519Kyber768Draft00 client key share")
+	}
+	k, err := mlkem.NewEncapsulationKey768(ks.data[x25519PublicKeySize:])
+	if err != nil {
+		c.sendAlert(alertIllegalParameter)
+		return errors.New("verif: invalid X25519Kyber768Draft00 client key share")
+	}
+	K, ciphertext := k.Encapsulate()
+	h := sha3.New256()
+	h.Write(ciphertext)
+	sh := sha3.NewShake256()
+	sh.Write(K)
+	sh.Write(h.Sum(nil))
+	out := make([]byte, 32)
+	sh.Read(out)
+	hs.sharedKey = append(hs.sharedKey, out...)
+	hs.hello.serverShare.data = append(hs.hello.serverShare.data, ciphertext...)
+	return nil
 }
